@@ -16,7 +16,10 @@ if __name__ == '__main__':
     seed = int(sys.argv[2]) if len(sys.argv) > 2 else 0
     n = 0
     fails = []
+    known_fails = []
     errors = []
+    import known
+    findings = known.load_findings(os.environ.get('VERIF_PROP')) if os.environ.get('VERIF_PROP') else {}
     for job in jobs:
         keys = sorted(job['grid'])
         for vals in itertools.product(*[job['grid'][k] for k in keys]):
@@ -30,8 +33,10 @@ if __name__ == '__main__':
                 r = rtc.run_one(job['fn'], cfg, sizes, seed + n)
                 n += 1
                 if r['ok'] is False:
-                    fails.append({'fn': job['fn'], 'cfg': cfg, 'sizes': sizes, 'eff': r.get('eff', {}), 'detail': r['detail']})
+                    fl = {'fn': job['fn'], 'cfg': cfg, 'sizes': sizes, 'eff': r.get('eff', {}), 'detail': r['detail']}
+                    # failures inside the region of a recorded known finding are counted apart, so that they cannot crowd new ones out
+                    (known_fails if findings and known.in_known(fl, findings) else fails).append(fl)
                 elif r['ok'] is None:
                     errors.append({'fn': job['fn'], 'cfg': cfg, 'sizes': sizes, 'detail': r['detail']})
     print(json.dumps({'evaluations': n, 'failures': fails[:50], 'n_failures': len(fails), 'errors': errors[:5],
-                      'n_errors': len(errors)}))
+                      'n_errors': len(errors), 'n_in_known_finding_regions': len(known_fails), 'known_region_samples': known_fails[:3]}))
